@@ -811,9 +811,10 @@ class SymArr:
                     if z3.is_bool(vt):  # a mask computed by a comparison (its `kind` is informational only)
                         raise OutOfSubset("boolean mask indexing of a symbolic array is not modelled")
                     # negative entries of an index array count from the end (numpy / torch); arrays that are
-                    # non-negative by construction (arange, argsort / permutation bijections) are left as they are
+                    # non-negative by construction (arange, argsort / permutation bijections) or provably on this path
+                    # are left as they are
                     # (engine self-test: np_fancy_index_negative)
-                    if z3.is_int(vt) and not (hasattr(arr, "sigma") or arr.name == "arange"):
+                    if z3.is_int(vt) and not (hasattr(arr, "sigma") or arr.name == "arange") and not _provably_nonneg(vt):
                         vt = simp(z3.If(vt < 0, vt + lift(self_shape[oa[1]]), vt))
                     srcidx[oa[1]] = vt
                     pos += oa[2]
@@ -861,10 +862,10 @@ class SymArr:
             yield self[i]
 
     # ---- elementwise arithmetic (numpy semantics) / list concatenation
-    def _ew(self, other, f, swap=False):
+    def _ew(self, other, f, swap=False, kind=None):
         if self.pylist:
             return NotImplemented
-        return elementwise(lambda a, b: f(b, a) if swap else f(a, b), self, other)
+        return elementwise(lambda a, b: f(b, a) if swap else f(a, b), self, other, kind=kind)
 
     def __add__(self, o):
         if self.pylist:
@@ -923,16 +924,16 @@ class SymArr:
         return elementwise(lambda a: abs(S(a)), self)
 
     def __lt__(self, o):
-        return self._ew(o, lambda a, b: S(a) < b)
+        return _as_mask(self._ew(o, lambda a, b: S(a) < b))  # a comparison yields a boolean mask
 
     def __le__(self, o):
-        return self._ew(o, lambda a, b: S(a) <= b)
+        return _as_mask(self._ew(o, lambda a, b: S(a) <= b))  # a comparison yields a boolean mask
 
     def __gt__(self, o):
-        return self._ew(o, lambda a, b: S(a) > b)
+        return _as_mask(self._ew(o, lambda a, b: S(a) > b))  # a comparison yields a boolean mask
 
     def __ge__(self, o):
-        return self._ew(o, lambda a, b: S(a) >= b)
+        return _as_mask(self._ew(o, lambda a, b: S(a) >= b))  # a comparison yields a boolean mask
 
     def __and__(self, o):
         return self._ew(o, lambda a, b: S(a) & b)
@@ -944,7 +945,7 @@ class SymArr:
         return elementwise(lambda a: ~S(a), self)
 
     def eq(self, o):
-        return self._ew(o, lambda a, b: S(a) == b)
+        return _as_mask(self._ew(o, lambda a, b: S(a) == b))
 
     __hash__ = object.__hash__
 
@@ -1039,6 +1040,25 @@ class SymArr:
         return [self[i] for i in range(ln)]
 
 
+
+
+def _as_mask(r):
+    """Result of an elementwise comparison: its element kind is bool (set on the result, so subclasses overriding
+    `_ew` with the original signature keep working)."""
+    if isinstance(r, SymArr):
+        r.kind = "bool"
+    return r
+
+
+def _provably_nonneg(t):
+    """t >= 0 by simplification or entailed by the current path condition (bounded solver call; unknown -> False).
+    Keeps the index term of a provably non-negative fancy index free of the wrap-around conditional."""
+    if z3.is_true(simp(t >= 0)):
+        return True
+    try:
+        return cur().entails(t >= 0)
+    except RuntimeError:
+        return False
 
 
 def _is_int_dtype(dt):
